@@ -45,6 +45,13 @@ def structure_cases(maxlen):
                 yield {"seq": list(seq), "counts": list(counts), "other": None}
 
 
+def structure_long_cases(minlen, maxlen):
+    """Longer block sequences with one fixed assignment of line counts (every block still identifiable by its bf)."""
+    for n in range(minlen, maxlen + 1):
+        for seq in itertools.product(range(3), repeat=n):
+            yield {"seq": list(seq), "counts": [(i + seq[i]) % 3 for i in range(n)], "other": None}
+
+
 def structure_other_cases(maxlen):
     for n in range(0, maxlen + 1):
         for seq in itertools.product(range(3), repeat=n):
@@ -201,6 +208,7 @@ def run(ctx):
     maxlen = 4 if ctx.thorough else 3
     A = [("structure", c, structure_ast(c, rot)) for c in structure_cases(maxlen)]
     A += [("structure+other", c, structure_ast(c, rot)) for c in structure_other_cases(3 if ctx.thorough else 2)]
+    A += [("structure-long", c, structure_ast(c, rot)) for c in structure_long_cases(maxlen + 1, 6 if ctx.thorough else 5)]
     ctx.log(f"A: {len(A)} unpacked structure files")
     run_tasks(ctx, work_unpacked, chunks(A, 40))
     ctx.count(states=len(A), transitions=sum(len(a) for _k, _c, a in A))
